@@ -186,7 +186,7 @@ fn shuffle_game(s: &mut Src) -> String {
 }
 
 /// Oracle 2: prefix, ucinewgame, suffix in one process; suffix alone in a fresh one.
-fn compare_newgame(prefix: &[String], suffix: &[String], stats: &mut Stats) -> Verdict {
+fn compare_newgame(prefix: &[String], suffix: &[String], newgames: usize, stats: &mut Stats) -> Verdict {
     let (prefix, suffix) = (prefix.to_vec(), suffix.to_vec());
     // process 1: prefix, barrier, ucinewgame, suffix
     let mut p = Proc::spawn().map_err(|e| Failure::new("harness-no-engine", json!({"error": e})))?;
@@ -200,7 +200,10 @@ fn compare_newgame(prefix: &[String], suffix: &[String], stats: &mut Stats) -> V
             return Err(Failure::new("harness-timeout-or-exit", json!({"script": prefix, "stdout": p.transcript})));
         }
     }
-    p.send("ucinewgame");
+    // ucinewgame, `newgames` times in a row (a GUI starting game after game; any count must do)
+    for _ in 0..newgames.max(1) {
+        p.send("ucinewgame");
+    }
     for l in &suffix {
         p.send(l);
     }
@@ -225,7 +228,7 @@ fn compare_newgame(prefix: &[String], suffix: &[String], stats: &mut Stats) -> V
         let idx = fresh.iter().zip(after.iter()).position(|(a, b)| a != b).unwrap_or(fresh.len().min(after.len()));
         return Err(Failure::new(
             "ucinewgame-not-like-fresh-process",
-            json!({"prefix": prefix, "suffix": suffix, "first_difference_at_line": idx, "after_ucinewgame": after.get(idx), "fresh_process": fresh.get(idx), "after_ucinewgame_output": after, "fresh_output": fresh}),
+            json!({"prefix": prefix, "suffix": suffix, "ucinewgame_count": newgames.max(1), "first_difference_at_line": idx, "after_ucinewgame": after.get(idx), "fresh_process": fresh.get(idx), "after_ucinewgame_output": after, "fresh_output": fresh}),
         ));
     }
     Ok(())
@@ -233,7 +236,11 @@ fn compare_newgame(prefix: &[String], suffix: &[String], stats: &mut Stats) -> V
 
 fn part_newgame(bytes: &[u8], stats: &mut Stats) -> Verdict {
     let mut s = Src::new(bytes);
-    let mode = s.weighted(&[35, 40, 25]);
+    // how many ucinewgame in a row: mostly one; sometimes counts around the powers of two at
+    // which a small counter wraps (then the new game revisits the old one: that is where a
+    // half-forgotten table would show)
+    let newgames = if s.chance(15) { *s.pick(&[2usize, 3, 16, 255, 256, 257, 512]) } else { 1 };
+    let mode = if newgames >= 255 { 1 } else { s.weighted(&[35, 40, 25]) };
     let np = if mode == 0 { s.below(4) } else { 1 + s.below(3) };
     let mut prefix_rounds = gen_rounds(&mut s, np);
     if mode == 2 {
@@ -275,7 +282,13 @@ fn part_newgame(bytes: &[u8], stats: &mut Stats) -> Verdict {
     if bare_go {
         suffix.insert(0, format!("go depth {}", 1 + s.below(if mode == 2 { 4 } else { 3 })));
     }
-    compare_newgame(&prefix, &suffix, stats)?;
+    if newgames > 1 {
+        stats.class("several_ucinewgame_in_a_row");
+        if newgames >= 255 {
+            stats.class("255_or_more_ucinewgame_in_a_row");
+        }
+    }
+    compare_newgame(&prefix, &suffix, newgames, stats)?;
     let prefix_searches = prefix.iter().filter(|l| l.starts_with("go")).count();
     if prefix_searches >= 1 {
         stats.class("prefix_contains_a_search");
@@ -471,7 +484,8 @@ pub fn replay(part: &str, bytes: &[u8], case: &Value, stats: &mut Stats) -> Verd
     // structural replay: the saved script(s)
     let strs = |k: &str| -> Option<Vec<String>> { case.get(k)?.as_array().map(|a| a.iter().filter_map(|x| x.as_str().map(|s| s.to_string())).collect()) };
     if let (Some(prefix), Some(suffix)) = (strs("prefix"), strs("suffix")) {
-        return compare_newgame(&prefix, &suffix, stats);
+        let k = case.get("ucinewgame_count").and_then(|x| x.as_u64()).unwrap_or(1) as usize;
+        return compare_newgame(&prefix, &suffix, k, stats);
     }
     if let Some(script) = strs("script") {
         return compare_runs(&script, 4, Duration::from_secs(900), stats).map(|_| ());
